@@ -10,10 +10,13 @@ package llrp
 //   types
 //   x <exp> <act> <code> <desc> <fe> <pe> <mode>
 //   r <exp> <act> <lo> <hi> <desc> <fe> <pe> <mode>      (one answer line per code in [lo,hi))
+//   u <exp> <pre> <code> <desc> <fe> <pe> <mode>         (the peer first sends a reader-initiated frame of
+//        type <pre> (61/62/63) carrying the request's id and a status-shaped payload with code 777, then the
+//        real reply of type <exp> with the given status)
 // desc: "-" or hex; fe: "-" or idx.code; pe: "-" or comma-joined levels ptype.code[.idx.fcode];
 // mode: z = response value passed to SendFor is the zero value, s = pre-filled with a sentinel.
 // answer: <cls> <code> <desc> <fe> <pe> <same|changed> <in_code> <in_desc> <in_fe> <in_pe>
-//   cls = nil | status | other | timeout | panic | skipped (after 8 timeouts/panics the rest is not run)
+//   cls = nil | status | other | timeout | panic | skipped (see c12BrokenBudget)
 
 import (
 	"context"
@@ -38,6 +41,7 @@ type c12Level struct {
 type c12Reply struct {
 	typ     uint16
 	payload []byte
+	pre     *c12Reply // frame sent before the reply, with the same id
 }
 
 func c12be16(v uint16) []byte { return []byte{byte(v >> 8), byte(v)} }
@@ -145,6 +149,11 @@ func (s *c12Session) peer() {
 		if !ok {
 			return
 		}
+		if r.pre != nil {
+			if _, err := s.pconn.Write(c12frame(r.pre.typ, id, r.pre.payload)); err != nil {
+				return
+			}
+		}
 		if _, err := s.pconn.Write(c12frame(r.typ, id, r.payload)); err != nil {
 			return
 		}
@@ -164,6 +173,17 @@ func (s *c12Session) close() {
 	case <-time.After(2 * time.Second):
 	}
 }
+
+// a single exchange that does not finish in this time is reported as `timeout`; the connection is then
+// re-established and the run continues. Once timeouts/panics have cost c12BrokenBudget in total, the
+// remaining exchanges are answered `skipped` instead of spending the budget again on each of them.
+// A timed-out exchange is tried once more on the fresh connection with c12RetryTimeout, so that a stall of
+// the machine is not mistaken for a hang of SendFor.
+const (
+	c12Timeout      = 2 * time.Second
+	c12RetryTimeout = 8 * time.Second
+	c12BrokenBudget = 8
+)
 
 // request with an empty payload of a given type
 type c12Out struct{ typ MessageType }
@@ -227,7 +247,7 @@ func c12FmtStatus(code StatusCode, desc string, fe *FieldError, pe *ParameterErr
 }
 
 // one exchange through the real SendFor
-func (s *c12Session) exchange(exp, act MessageType, payload []byte, mode string) (line string, broken bool) {
+func (s *c12Session) exchange(exp, act MessageType, payload []byte, mode string, pre *c12Reply, timeout time.Duration) (line string, broken bool) {
 	in := c12Instance(exp, mode)
 	before := c12Instance(exp, mode)
 	if in == nil {
@@ -239,11 +259,13 @@ func (s *c12Session) exchange(exp, act MessageType, payload []byte, mode string)
 	if !ok || reqT == MsgCloseConnection {
 		reqT = MsgCustomMessage
 	}
-	s.script <- c12Reply{typ: uint16(act), payload: payload}
-	ctx, cancel := context.WithTimeout(context.Background(), 5*time.Second)
+	s.script <- c12Reply{typ: uint16(act), payload: payload, pre: pre}
+	ctx, cancel := context.WithTimeout(context.Background(), timeout)
 	var err error
 	panicked := false
-	func() {
+	finished := make(chan struct{})
+	go func() {
+		defer close(finished)
 		defer func() {
 			if r := recover(); r != nil {
 				panicked = true
@@ -251,6 +273,16 @@ func (s *c12Session) exchange(exp, act MessageType, payload []byte, mode string)
 		}()
 		err = s.client.SendFor(ctx, c12Out{reqT}, in)
 	}()
+	// SendFor honours ctx while it waits for the reply; a hang after the reply arrived (e.g. in a decoder) would
+	// not: give up on the call after a grace period and leave its goroutine behind.
+	hard := time.NewTimer(timeout + time.Second)
+	select {
+	case <-finished:
+		hard.Stop()
+	case <-hard.C:
+		cancel()
+		return "timeout - - - - same - - - -", true
+	}
 	cancel()
 	cls, fields := "other", "- - - -"
 	var se *StatusError
@@ -368,7 +400,7 @@ func TestVerifC12(t *testing.T) {
 				}
 			}
 			fmt.Fprintln(w, strings.Join(out, " "))
-		case (len(tok) == 8 && tok[0] == "x") || (len(tok) == 9 && tok[0] == "r"):
+		case (len(tok) == 8 && (tok[0] == "x" || tok[0] == "u")) || (len(tok) == 9 && tok[0] == "r"):
 			exp, e1 := c12ParseU16(tok[1])
 			act, e2 := c12ParseU16(tok[2])
 			lo, e3 := c12ParseU16(tok[3])
@@ -394,13 +426,26 @@ func TestVerifC12(t *testing.T) {
 					fmt.Fprintln(w, "error: "+err.Error())
 					continue
 				}
-				if nBroken >= 8 { // do not spend 5 s on each of thousands of exchanges
+				if nBroken >= c12BrokenBudget {
 					fmt.Fprintln(w, "skipped - - - - same - - - -")
 					continue
 				}
-				ans, broken := s.exchange(MessageType(exp), MessageType(act), payload, mode)
+				var pre *c12Reply
+				replyT := MessageType(act)
+				if tok[0] == "u" { // act names the reader-initiated frame; the real reply has the expected type
+					decoy, _ := c12Payload(MessageType(exp), MessageType(exp), 777, []byte("decoy"), &c12Level{hasFE: true, fidx: 5, fcode: 6}, nil)
+					pre = &c12Reply{typ: act, payload: decoy}
+					replyT = MessageType(exp)
+					payload, _ = c12Payload(MessageType(exp), MessageType(exp), uint16(c), d, f, p)
+				}
+				ans, broken := s.exchange(MessageType(exp), replyT, payload, mode, pre, c12Timeout)
+				if broken && strings.HasPrefix(ans, "timeout") {
+					s.close()
+					s = c12NewSession()
+					ans, broken = s.exchange(MessageType(exp), replyT, payload, mode, pre, c12RetryTimeout)
+				}
 				fmt.Fprintln(w, ans)
-				if broken { // start over on a fresh connection
+				if broken { // start over on a fresh connection and continue with the next exchange
 					nBroken++
 					s.close()
 					s = c12NewSession()
